@@ -223,6 +223,33 @@ class _Priv:
     nominalWidthX = 0; defaultWidthX = 0; Subrs = []
     vstore = None
 
+def _sample_outline(calls, n=96):
+    """points on the outline: the end points of every segment and n parameter values inside each curve (cubics, quadratic splines via
+    the implied on-curve points, super-beziers are skipped)"""
+    pts = []; cur = None
+    for op, a in calls:
+        if op == "moveTo": cur = a[0]; pts.append(cur)
+        elif op == "lineTo": cur = a[0]; pts.append(cur)
+        elif op == "curveTo":
+            if len(a) != 3: return None
+            p0, p1, p2, p3 = cur, a[0], a[1], a[2]
+            for i in range(1, n + 1):
+                t = i / n; m = 1 - t
+                pts.append((m*m*m*p0[0] + 3*m*m*t*p1[0] + 3*m*t*t*p2[0] + t*t*t*p3[0], m*m*m*p0[1] + 3*m*m*t*p1[1] + 3*m*t*t*p2[1] + t*t*t*p3[1]))
+            cur = p3
+        elif op == "qCurveTo":
+            if a[-1] is None or cur is None: return None
+            offs = list(a[:-1]); end = a[-1]
+            ons = [((offs[i][0] + offs[i+1][0]) / 2, (offs[i][1] + offs[i+1][1]) / 2) for i in range(len(offs) - 1)] + [end]
+            p0 = cur
+            for c, p2 in zip(offs, ons):
+                for i in range(1, n + 1):
+                    t = i / n; m = 1 - t
+                    pts.append((m*m*p0[0] + 2*m*t*c[0] + t*t*p2[0], m*m*p0[1] + 2*m*t*c[1] + t*t*p2[1]))
+                p0 = p2
+            cur = end
+    return pts
+
 def _record(calls, pen):
     for op, a in calls: getattr(pen, op)(*a)
 
@@ -318,6 +345,17 @@ def sweeps(tier, rng):
                 if bad is None and b.bounds is not None and cb.bounds is not None:
                     if not (cb.bounds[0] <= b.bounds[0] + 1e-9 and cb.bounds[1] <= b.bounds[1] + 1e-9 and b.bounds[2] <= cb.bounds[2] + 1e-9 and b.bounds[3] <= cb.bounds[3] + 1e-9):
                         bad = "bounds %r not inside control bounds %r" % (b.bounds, cb.bounds)
+                # ... and they are the bounds of the curve itself: every sampled point of the outline lies inside, and each side is touched
+                if bad is None and b.bounds is not None:
+                    pts = _sample_outline(calls)
+                    if pts:
+                        xs = [float(q[0]) for q in pts]; ys = [float(q[1]) for q in pts]
+                        span = max(1.0, max(xs) - min(xs), max(ys) - min(ys))
+                        x0, y0, x1, y1 = [float(v) for v in b.bounds]
+                        if min(xs) < x0 - 1e-7 * span or min(ys) < y0 - 1e-7 * span or max(xs) > x1 + 1e-7 * span or max(ys) > y1 + 1e-7 * span:
+                            bad = "BoundsPen bounds %r do not contain the outline (sampled extremes %r) of %r" % (b.bounds, (min(xs), min(ys), max(xs), max(ys)), calls)
+                        elif min(xs) > x0 + 2e-3 * span or min(ys) > y0 + 2e-3 * span or max(xs) < x1 - 2e-3 * span or max(ys) < y1 - 2e-3 * span:
+                            bad = "BoundsPen bounds %r are not tight (sampled extremes %r) for %r" % (b.bounds, (min(xs), min(ys), max(xs), max(ys)), calls)
             except Exception:
                 pass
             yield (("adapters", calls), bad)
